@@ -8,7 +8,7 @@
     float64 back (shortest round trip). *)
 From Coq Require Import List NArith Bool String.
 From Verif Require Import Lib.Utf8 Jsonx.Lex Jsonx.Tok Jsonx.GoStr Jsonx.Num Jsonx.NumProofs
-  Jsonx.Parse Jsonx.Json Jsonx.Encode Jsonx.ParseProofs Jsonx.Term Jsonx.JsonProofs
+  Jsonx.Parse Jsonx.Json Jsonx.Encode Jsonx.ParseProofs Jsonx.Term Jsonx.JsonProofs Jsonx.StrAgree
   Jsonx.GenTypes Gen.JsonxConsts Jsonx.ConstsGen.
 Import ListNotations.
 Local Open Scope N_scope.
@@ -82,6 +82,17 @@ Theorem C09_string_reads_back : forall bs rest,
 Proof. exact json_quote_read. Qed.
 Print Assumptions C09_string_reads_back.
 
+(** Strings of plain JSON: a literal that the reference JSON parser reads as
+    [v] and that strconv.Unquote also accepts denotes the same string (the
+    escapes the two syntaxes share mean the same; the others are rejected by
+    one side). *)
+Theorem C09_plain_json_strings_agree : forall body v bs,
+  forallb valid_rune body = true ->
+  jstr_go JN body = Some (v, []) -> go_unquote (34 :: body) = Some bs ->
+  utf8_decode bs = v.
+Proof. exact plain_json_strings_agree. Qed.
+Print Assumptions C09_plain_json_strings_agree.
+
 (** Bare keys and dotted identifiers are ASCII: they denote their own runes. *)
 Theorem C09_identifier_denotes_itself : forall s t e rest,
   lex_ident s = LTok t e rest -> utf8_decode (utf8_encode (tlit t)) = tlit t.
@@ -146,6 +157,12 @@ Example C09_hex_octal : (* 0x1F -> 31, 007 -> 7, 08 -> error *)
   int_json [48; 120; 49; 70] = Some [51; 49] /\ int_json [48; 48; 55] = Some [55] /\
   int_json [48; 56] = None.
 Proof. vm_compute. repeat split. Qed.
+
+(* the literal a, backslash-u00e9, backslash-n, backslash-quote *)
+Example C09_strings_agree_example :
+  jstr_go JN [97; 92; 117; 48; 48; 101; 57; 92; 110; 92; 34; 34] = Some ([97; 233; 10; 34], []) /\
+  go_unquote [34; 97; 92; 117; 48; 48; 101; 57; 92; 110; 92; 34; 34] = Some [97; 195; 169; 10; 34].
+Proof. vm_compute. split; reflexivity. Qed.
 
 Example C09_trailing_example :
   unmarshal ftab (fun t => t) [49; 32; 50] = Ok UMore.       (* "1 2" *)
